@@ -53,7 +53,7 @@ pub fn c09(rep: &mut Report, cfg: &Cfg) {
     let replay_sweep = |what: &str, a: u32| format!("check=C09 kind=bus what={} addr={:x}", what, a);
 
     // ---- 1. exhaustive classification + tagged write / read-back sweeps over all 2^24 addresses
-    let passes = if cfg.tier_thorough { 4 } else { 2 };
+    let passes = if cfg.tier_thorough { 8 } else { 2 };
     for pass in 0..passes {
         let k = cfg.seed.wrapping_mul(31).wrapping_add(cfg.shard * 8 + pass);
         let reverse = pass % 2 == 1;
@@ -164,7 +164,7 @@ pub fn c09(rep: &mut Report, cfg: &Cfg) {
     }
 
     // ---- 3. histories of byte/word/long writes and reads through MOV at region boundaries
-    let sessions = cfg.share(cfg.n(40, 1500)).max(2);
+    let sessions = cfg.share(cfg.n(40, 12_000)).max(2);
     for _ in 0..sessions {
         let seed = rng.next();
         history_session(rep, seed, false);
@@ -303,7 +303,7 @@ pub fn c19(rep: &mut Report, cfg: &Cfg) {
         (7, vec![0xe00000, 0xf00000, 0xfedfff, 0xfee100, 0xffbf1f]),
         (8, vec![0xffbf20, 0xffe001, 0xffff1f]),
     ];
-    let fills = cfg.n(8, 48);
+    let fills = cfg.n(8, 160);
     let mut work = 0u64;
     for (area, addrs) in &probes {
         let a = if *area == 8 { 7 } else { *area };
@@ -374,7 +374,7 @@ pub fn c19(rep: &mut Report, cfg: &Cfg) {
         let _ = cpu.bus.write(reg, v);
     }
     let all_addrs: Vec<(u32, u32)> = probes.iter().flat_map(|(a, v)| v.iter().map(move |x| (*a, *x))).collect();
-    let steps = cfg.share(cfg.n(300_000, 6_000_000));
+    let steps = cfg.share(cfg.n(300_000, 40_000_000));
     let mut last_written = 9u64;
     for _ in 0..steps {
         let which = rng.below(7);
